@@ -295,6 +295,8 @@ pub struct Link {
     pub back: VecDeque<String>,
     pub open: bool,
     pub delivered: u64,
+    /// the opener died; the receiving node has not run its end-of-connection path yet
+    pub eof_pending: bool,
 }
 
 pub struct ScriptClient {
@@ -336,6 +338,8 @@ pub enum T {
     Wake(String),
     Timeout(String),
     Drop(usize),
+    /// the peer at the receiving end of link (from, to) notices that the connection has ended
+    Eof(usize, usize),
 }
 
 pub struct NetWorld {
@@ -348,6 +352,11 @@ pub struct NetWorld {
     pub steps: u64,
     /// per-link message log since the last reset (C14)
     pub traffic: Vec<(usize, usize, String)>,
+    /// kill_node leaves the end-of-connection notices to T::Eof transitions
+    pub lazy_eof: bool,
+    /// nodes whose pending end-of-connection notices are listed last among the enabled transitions
+    /// (the default schedule then lets everything else happen before such a node notices)
+    pub eof_last: Vec<usize>,
 }
 
 /// prefix of traffic-log entries that are reply lines on an incoming connection (acks, ok, results),
@@ -382,7 +391,7 @@ impl NetWorld {
             names.push(node_name(i));
             nodes.push(NNode { node, loops, repl_q: VecDeque::new(), sup_q: VecDeque::new(), alive: true, changed: false, links_seen: 0, join_worker: None, started: false });
         }
-        NetWorld { nodes, links: vec![], clients: vec![], names, problems: vec![], counters: BTreeMap::new(), steps: 0, traffic: vec![] }
+        NetWorld { nodes, links: vec![], clients: vec![], names, problems: vec![], counters: BTreeMap::new(), steps: 0, traffic: vec![], lazy_eof: false, eof_last: vec![] }
     }
 
     pub fn idx(&self, name: &str) -> Option<usize> {
@@ -435,7 +444,7 @@ impl NetWorld {
                             fwd.push_back(format!("replicate-since {} {}", h.self_addr, nundb::disk_ops::Oplog::last_op_time()));
                         }
                         let server = Worker::spawn(&format!("n{}<-n{}#{}", to + 1, i + 1, self.links.len()), &self.nodes[to].node, false);
-                        self.links.push(Link { from: i, to, handle: h, server, fwd, back: VecDeque::new(), open: true, delivered: 0 });
+                        self.links.push(Link { from: i, to, handle: h, server, fwd, back: VecDeque::new(), open: true, delivered: 0, eof_pending: false });
                     }
                     _ => {
                         // connection refused: the link thread ends at once
@@ -480,6 +489,9 @@ impl NetWorld {
             }
         }
         for l in self.links.iter() {
+            if l.eof_pending && self.nodes[l.to].alive && l.server.state() == WState::Idle {
+                v.push(T::Eof(l.from, l.to));
+            }
             if !l.open {
                 continue;
             }
@@ -517,6 +529,16 @@ impl NetWorld {
 
     /// transitions enabled in this state, in canonical order
     pub fn enabled(&self, with_clients: bool) -> Vec<T> {
+        let mut v = self.enabled_inner(with_clients);
+        if !self.eof_last.is_empty() {
+            let (late, mut rest): (Vec<T>, Vec<T>) = v.into_iter().partition(|t| matches!(t, T::Eof(_, to) if self.eof_last.contains(to)));
+            rest.extend(late);
+            v = rest;
+        }
+        v
+    }
+
+    fn enabled_inner(&self, with_clients: bool) -> Vec<T> {
         let mut v = self.message_transitions();
         if with_clients {
             for (i, c) in self.clients.iter().enumerate() {
@@ -703,6 +725,14 @@ impl NetWorld {
             T::Drop(i) => {
                 self.kill_node(*i)?;
             }
+            T::Eof(f, t) => {
+                let li = self.links.iter().position(|l| l.from == *f && l.to == *t && l.eof_pending).ok_or("no pending end-of-connection on that link")?;
+                self.links[li].eof_pending = false;
+                let name = self.links[li].server.name.clone();
+                self.links[li].server.run(WCmd::Eof)?;
+                self.nodes[*t].changed = true;
+                self.collect_worker(&name);
+            }
         }
         self.pump();
         Ok(())
@@ -716,6 +746,15 @@ impl NetWorld {
 
     /// the node dies; its peers notice the broken connections one after the other, in link order
     /// or (reverse = true) in the opposite order
+    /// the node dies; every survivor notices the broken connection in a transition of its own
+    /// (T::Eof), at any later point of the exploration
+    pub fn kill_node_lazily(&mut self, i: usize) -> Result<(), String> {
+        self.lazy_eof = true;
+        let r = self.kill_node_noticed(i, false);
+        self.lazy_eof = false;
+        r
+    }
+
     pub fn kill_node_noticed(&mut self, i: usize, reverse: bool) -> Result<(), String> {
         self.nodes[i].alive = false;
         self.nodes[i].repl_q.clear();
@@ -730,6 +769,10 @@ impl NetWorld {
                 self.links[li].open = false;
                 self.links[li].handle.close();
                 let to = self.links[li].to;
+                if self.lazy_eof {
+                    self.links[li].eof_pending = self.nodes[to].alive;
+                    continue;
+                }
                 if self.nodes[to].alive && self.links[li].server.state() == WState::Idle {
                     let name = self.links[li].server.name.clone();
                     self.links[li].server.run(WCmd::Eof)?;
